@@ -314,6 +314,9 @@ fn tag_variants(e_opaque: &[u8]) -> Vec<TagHdr> {
         l(vec![(strong(b"a, b "), b" "), (weak(b"x"), b"")]),
         l(vec![(weak(b"x"), b"\t"), (weak(e_opaque), b"")]),
         l(vec![(strong(b"x, y"), b" "), (strong(b"y"), b"")]),
+        // the entity's tag in another letter case is another tag (entity-tags are opaque)
+        l(vec![(strong(&e_opaque.to_ascii_uppercase()), b"")]),
+        l(vec![(weak(&e_opaque.to_ascii_uppercase()), b" "), (strong(b"x"), b"")]),
     ]
 }
 
@@ -537,8 +540,8 @@ pub fn c05(em: &mut Emit, thorough: bool, seed: u64) {
     let mut rng = Rng::new(seed ^ 0xC05);
     let opaque: &[u8] = b"v1";
     // (the last two: entities whose own tag is one of the If-Range values with a word spliced in)
-    let etags: [Option<Tag>; 5] =
-        [None, Some(strong(opaque)), Some(weak(opaque)), Some(strong(b"v1-gzip")), Some(strong(b"W/v1"))];
+    let etags: [Option<Tag>; 6] =
+        [None, Some(strong(opaque)), Some(weak(opaque)), Some(strong(b"v1-gzip")), Some(strong(b"W/v1")), Some(strong(b"v\xe91"))];
     let ranges: [&[u8]; 5] = [
         b"bytes=1-2",
         b"bytes=5-",
@@ -569,6 +572,10 @@ pub fn c05(em: &mut Emit, thorough: bool, seed: u64) {
         ("list-trailing-comma".into(), Some(b"\"v1\",".to_vec())),
         ("list-leading-comma".into(), Some(b",\"v1\"".to_vec())),
         ("list-star".into(), Some(b"*, \"v1\"".to_vec())),
+        // obs-text (bytes >= 0x80 are legal in an entity-tag): another tag that is not ASCII
+        // either, and the same one
+        ("obs-other".into(), Some(b"\"v\xe92\"".to_vec())),
+        ("obs-same".into(), Some(b"\"v\xe91\"".to_vec())),
     ];
     // the matching validator with a protocol word spliced in before the closing quote or after
     // the opening one (what a compressing proxy, a cache or a sloppy client might send)
